@@ -30,11 +30,13 @@ m = {
     "hooks": {
         "guard": "AGENTD_SQUASHFS_TOOLS_NG_VERIF",
         "enable": "checks compile /repo's working tree directly (vlib/build.py) with -DAGENTD_SQUASHFS_TOOLS_NG_VERIF=1; "
-                  "no in-tree hook is needed: the scheduler enters through -include of a shim header, the environment "
-                  "controller through -Wl,--wrap, private state through #include of the .c file into a harness TU, "
-                  "hash truncation through -Dxxh32=",
+                  "one in-tree hook (lib/sqfs/src/meta_reader.c): with the define and AddressSanitizer the unused tail of the "
+                  "metadata reader's block buffer is poisoned so that reads behind data_used are reported (used by C05, C10, C19 "
+                  "and every check that runs ASan readers). Everything else needs no hook: the scheduler enters through -include of "
+                  "a shim header, the environment controller through -Wl,--wrap, private state through #include of the .c file "
+                  "into a harness TU, hash truncation through -Dxxh32=",
         "baseline_off_cmd": "make -C /repo -j8 check",
-        "source_commits": [],
+        "source_commits": ["9b83a562e6130b736eb2b773ef3a1b078b4edb7c"],
         "add_only": True,
     },
     "engines": ENGINES,
